@@ -373,12 +373,22 @@ func c13Harness(sc c13Scn, o *c13Obs) func() {
 				}
 				push(agwFrame{Port: P, Kind: 'D', PID: 0xf0, From: c13Target, To: c13MyCall, Data: c13Payload(k, n)})
 			}
-			allSent = true
+			if sc.Late != -2 {
+				allSent = true
+			}
 			if sc.Kind == "inbound" {
 				push(agwFrame{Port: P, Kind: 'd', From: c13Target, To: c13MyCall, Data: []byte("*** DISCONNECTED From " + c13Target + "\r")})
 			}
+			if sc.Late == -2 && !sc.OneWrite { // the reader starts only after the disconnect has been digested
+				vs.WaitQuiescent()
+				allSent = true
+			}
 			if sc.OneWrite {
 				sim.conn.Write(all)
+				if sc.Late == -2 {
+					vs.WaitQuiescent()
+					allSent = true
+				}
 			}
 		})
 		vs.GoNamed("application", true, func() {
@@ -430,7 +440,7 @@ func c13Harness(sc c13Scn, o *c13Obs) func() {
 			switch sc.Kind {
 			case "inbound", "handshake":
 				o.stage = "read"
-				if sc.Late < 0 { // the reader only starts when the (paced) TNC has sent all its data frames
+				if sc.Late < 0 { // the reader only starts when the (paced) TNC has sent all its data frames (-2: and the disconnect)
 					vs.WaitUntil("tnc has sent all data frames", func() bool { return allSent })
 				}
 				appReading = true
@@ -665,7 +675,8 @@ func c13Scenarios(thorough bool) []c13Scn {
 	// a reader that starts late while a paced TNC fills the connection's queue (up to its 10 slots)
 	for _, fs := range [][]int{{64, 32}, {8, 8, 8}, {300, 1, 255, 2}, {5, 6, 7, 8, 9, 10, 11, 12, 13, 14}} {
 		for _, foreign := range []int{0, 4} {
-			out = append(out, c13Scn{Kind: "inbound", Frames: fs, Late: -1, Foreign: foreign, DropEvery: 1}, c13Scn{Kind: "inbound", Frames: fs, Late: -1, Foreign: foreign, ReadBuf: 7, DropEvery: 1})
+			out = append(out, c13Scn{Kind: "inbound", Frames: fs, Late: -1, Foreign: foreign, DropEvery: 1}, c13Scn{Kind: "inbound", Frames: fs, Late: -1, Foreign: foreign, ReadBuf: 7, DropEvery: 1},
+				c13Scn{Kind: "inbound", Frames: fs, Late: -2, Foreign: foreign, DropEvery: 1}, c13Scn{Kind: "inbound", Frames: fs, Late: -2, Foreign: foreign, ReadBuf: 7, DropEvery: 1})
 		}
 	}
 	for _, port := range []int{0, 1} {
